@@ -393,8 +393,8 @@ def sinks(rep, prog, always, srcs, tag):
         for c in f.calls():
             tgt = c.rpath
             salt_idx = None
-            if tgt.endswith("argon2::argon2_hash"):
-                salt_idx = 4
+            if cm.is_argon2_call(prog, c):
+                salt_idx = cm.argon2_arg_index(prog)["salt"]
             elif tgt.endswith("crypto_pwhash::crypto_pwhash"):
                 salt_idx = 2
             if salt_idx is None or f.path.endswith("crypto_pwhash::crypto_pwhash"):
